@@ -265,12 +265,12 @@ def run_forms(ctx, pt):
 
 def pts_reject(tier):
     pts = []
-    for n in (0, 1, 15, 17, 23, 25, 31, 33, 48, 64):
+    for n in (0, 1, 2, 3, 4, 15, 17, 23, 25, 31, 33, 48, 64, 128, 192, 256):      # incl. bit counts taken for byte counts and the reverse
         pts.append(('aes-key', n))
     for c in ('aes128', 'aes256'):
-        for n in (0, 1, 15, 17, 24, 32, 48):
+        for n in (0, 1, 2, 15, 17, 24, 32, 48, 128):
             pts.append((c + '-block', n))
-    for n in (0, 7, 9, 16):
+    for n in (0, 1, 7, 9, 16, 56, 64):
         pts.append(('des-key', n))
         pts.append(('des-block', n))
         pts.append(('tdea-block', n))
@@ -280,14 +280,14 @@ def pts_reject(tier):
         pts.append(('tdea-keys',) + combo)
     for n in (33, 48, 64):
         pts.append(('serpent-key', n))
-    for n in (0, 15, 17, 32):
+    for n in (0, 2, 15, 17, 32, 128):
         pts.append(('serpent-block', n))
-    for n in (0, 16, 31, 33, 48, 63, 65, 96, 127, 129, 256):
+    for n in (0, 4, 8, 16, 31, 33, 48, 63, 65, 96, 127, 129, 256, 512, 1024):
         pts.append(('tf-key', n))
-    for n in (0, 8, 15, 17, 32):
+    for n in (0, 2, 8, 15, 17, 32, 128):
         pts.append(('tf-tweak', n))
     for nk in (32, 64, 128):
-        for d in (-1, 1, -8, nk):
+        for d in (-1, 1, -8, nk, 7 * nk, nk // 8 - nk):      # nk + 7nk = 8nk: the block size in bits taken for a byte count; nk/8: the reverse
             pts.append(('tf-block', nk, nk + d))
     return pts
 
